@@ -1,4 +1,4 @@
 \* a square frame with every triangular hole on the lattice of a 3x3-pixel grid, all flags, two levels
-CONSTANTS S = 2  N = 3  Ks = {0, 1}  Shape = "frame"  InputPolys <- MCInputs  Impl = "reference"
+CONSTANTS S = 2  N = 3  Ks = {0, 1}  Shape = "frame"  InputPolys <- MCInputs  Impl = "code"
 SPECIFICATION MCSpec
 INVARIANTS C06_Total C09_Reject C01_NoCrossing C05_WellFormed C04_VerticesAreCentres C07C08_FunctionOfLevel C18_AreaPreserved
